@@ -4,7 +4,9 @@ open Vgw Vgw.Model.Walk Vgw.Spec.List
 
 /-! Line protocol of the `walk` model.
 
-  keys   : `-` or comma-separated `hexkey:size:hexetag` (explicit directory objects end in `/`)
+  keys   : `-` or comma-separated `hexkey:size:hexetag` (explicit directory objects end in `/`);
+           `hexkey:D:-` = a file that exists in the tree but for which getObj answers ErrSkipObj
+           (posix: the current version is a delete marker) — part of the tree, not a key
   skip   : `-` or comma-separated hex names (Walk's skipdirs)
   page   : `<objs>;<cps>;<0|1>;<hexnext>` with objs = `-` or comma-separated `hexkey:size:hexetag`,
            cps = `-` or comma-separated hex
@@ -22,6 +24,24 @@ def parseObj (s : String) : Option Obj :=
   | _ => none
 
 def parseObjs (s : String) : Option (List Obj) := (splitList s).mapM parseObj
+
+/-- the key table of a request: the objects getObj answers for, and every path of the tree -/
+structure Tbl where
+  objs : List Obj
+  all : List Bytes
+
+def parseTblEntry (s : String) : Option (Option Obj × Bytes) :=
+  match s.splitOn ":" with
+  | [k, "D", _] => do
+    let k ← Bytes.ofHexAux k.toList
+    pure (none, k)
+  | _ => do
+    let o ← parseObj s
+    pure (some o, o.key)
+
+def parseTbl (s : String) : Option Tbl := do
+  let es ← (splitList s).mapM parseTblEntry
+  pure ⟨es.filterMap (·.1), es.map (·.2)⟩
 
 def parseHexList (s : String) : Option (List Bytes) := (splitList s).mapM (fun x => Bytes.ofHexAux x.toList)
 
@@ -50,12 +70,14 @@ def specKeys (tbl : List Obj) (skip : List Bytes) : List Bytes :=
   (tbl.map (·.key)).filter (fun k => !internal skip k)
 
 /-- input class = the first hypothesis of `walk_refines_spec_partial` that the input violates -/
-def classify (tbl : List Obj) (skip : List Bytes) (P D M : Bytes) : String :=
-  let all := tbl.map (·.key)
-  let K := specKeys tbl skip
+def classify (tbl : Tbl) (skip : List Bytes) (P D M : Bytes) : String :=
+  let all := tbl.all
+  let K := specKeys tbl.objs skip
   if D ≠ [] && D ≠ [47] then "walk:non-slash-delimiter"
   else if D = [] && hasDirObj K then "walk:dir-object-empty-delimiter"
-  else if hasDirObjWithChildren K then "walk:dir-object-with-children"
+  else if K.any (fun k => isDirObj k && all.any (fun k' => k' != k && k.isPrefixOf k')) then
+    "walk:dir-object-with-children"     -- children on disk, objects or not
+  else if D = [47] && !populatedList (getObjOf tbl.objs) skip [] (treeOf all) then "walk:phantom-directory"
   else if !ocList (treeOf all) then "walk:order-incompatible-siblings"
   else if !markerClear K P D M then "walk:marker-inside-common-prefix"
   else "walk:other"
@@ -64,13 +86,13 @@ def classify (tbl : List Obj) (skip : List Bytes) (P D M : Bytes) : String :=
 /-- follow the IMPLEMENTATION's own markers: page i was asked with the marker page i-1 returned.
 For every page: is it equal to the model's page, does the oracle admit it (and, when they differ,
 does the oracle admit the model's page), and the input class of that page's request. -/
-def judgePages (tbl : List Obj) (skip : List Bytes) (p d : Bytes) (n : Nat) :
+def judgePages (tbl : Tbl) (skip : List Bytes) (p d : Bytes) (n : Nat) :
     Nat → Bytes → List Result → List String
   | _, _, [] => []
   | i, m, r :: rs =>
-    let g := getObjOf tbl
-    let K := specKeys tbl skip
-    let model := walk ⟨p, d, m, n, g, skip⟩ (treeOf (tbl.map (·.key)))
+    let g := getObjOf tbl.objs
+    let K := specKeys tbl.objs skip
+    let model := walk ⟨p, d, m, n, g, skip⟩ (treeOf tbl.all)
     let eq := model == r
     let ok := pageOkB g K p d m n r
     let rest := judgePages tbl skip p d n (i + 1) r.next rs
@@ -78,74 +100,74 @@ def judgePages (tbl : List Obj) (skip : List Bytes) (p d : Bytes) (n : Nat) :
       let mok := if eq then ok else pageOkB g K p d m n model
       s!"{i}|{if eq then "eq" else "ne"}|{if ok then "ok" else "bad"}|{if mok then "ok" else "bad"}|{classify tbl skip p d m}|{showResult model}" :: rest
 
-def judge (tbl : List Obj) (skip : List Bytes) (p d m : Bytes) (n : Nat) (pages : List Result) : String :=
+def judge (tbl : Tbl) (skip : List Bytes) (p d m : Bytes) (n : Nat) (pages : List Result) : String :=
   let details := judgePages tbl skip p d n 0 m pages
-  let run := runOkB (getObjOf tbl) (specKeys tbl skip) p d m n pages
+  let run := runOkB (getObjOf tbl.objs) (specKeys tbl.objs skip) p d m n pages
   let cls := classify tbl skip p d m
   if details.isEmpty && run then s!"ok {cls}"
   else s!"bad {cls} run:{if run then "ok" else "bad"} {" ".intercalate details}"
 
 def handle : List String → Option String
   | ["model", keys, skip, p, d, m, max] => do
-    let tbl ← parseObjs keys
+    let tbl ← parseTbl keys
     let skip ← parseHexList skip
     let p ← Bytes.ofHex p
     let d ← Bytes.ofHex d
     let m ← Bytes.ofHex m
     let max ← max.toInt?
-    pure (showResult (walk ⟨p, d, m, max, getObjOf tbl, skip⟩ (treeOf (tbl.map (·.key)))))
+    pure (showResult (walk ⟨p, d, m, max, getObjOf tbl.objs, skip⟩ (treeOf tbl.all)))
   | ["spec", keys, skip, p, d, m, n] => do
-    let tbl ← parseObjs keys
+    let tbl ← parseTbl keys
     let skip ← parseHexList skip
     let p ← Bytes.ofHex p
     let d ← Bytes.ofHex d
     let m ← Bytes.ofHex m
     let n ← n.toNat?
-    pure (showResult (result (getObjOf tbl) (specKeys tbl skip) p d m n))
+    pure (showResult (result (getObjOf tbl.objs) (specKeys tbl.objs skip) p d m n))
   | ["all", keys, skip, p, d, m] => do
-    let tbl ← parseObjs keys
+    let tbl ← parseTbl keys
     let skip ← parseHexList skip
     let p ← Bytes.ofHex p
     let d ← Bytes.ofHex d
     let m ← Bytes.ofHex m
-    let es := entries (specKeys tbl skip) p d m
-    pure (showResult ⟨objsOf (getObjOf tbl) es, cpsOf es, false, []⟩)
+    let es := entries (specKeys tbl.objs skip) p d m
+    pure (showResult ⟨objsOf (getObjOf tbl.objs) es, cpsOf es, false, []⟩)
   | ["selfcheck", keys, skip, p, d, m, n] => do
-    let tbl ← parseObjs keys
+    let tbl ← parseTbl keys
     let skip ← parseHexList skip
     let p ← Bytes.ofHex p
     let d ← Bytes.ofHex d
     let m ← Bytes.ofHex m
     let n ← n.toNat?
-    let r := walk ⟨p, d, m, n, getObjOf tbl, skip⟩ (treeOf (tbl.map (·.key)))
-    pure (if pageOkB (getObjOf tbl) (specKeys tbl skip) p d m n r then "ok" else "bad")
+    let r := walk ⟨p, d, m, n, getObjOf tbl.objs, skip⟩ (treeOf tbl.all)
+    pure (if pageOkB (getObjOf tbl.objs) (specKeys tbl.objs skip) p d m n r then "ok" else "bad")
   | ["class", keys, skip, p, d, m] => do
-    let tbl ← parseObjs keys
+    let tbl ← parseTbl keys
     let skip ← parseHexList skip
     let p ← Bytes.ofHex p
     let d ← Bytes.ofHex d
     let m ← Bytes.ofHex m
     pure (classify tbl skip p d m)
   | ["oracle", keys, skip, p, d, m, n, page] => do
-    let tbl ← parseObjs keys
+    let tbl ← parseTbl keys
     let skip ← parseHexList skip
     let p ← Bytes.ofHex p
     let d ← Bytes.ofHex d
     let m ← Bytes.ofHex m
     let n ← n.toNat?
     let r ← parseResult page
-    pure (if pageOkB (getObjOf tbl) (specKeys tbl skip) p d m n r then "ok" else "bad")
+    pure (if pageOkB (getObjOf tbl.objs) (specKeys tbl.objs skip) p d m n r then "ok" else "bad")
   | "run" :: keys :: skip :: p :: d :: m :: n :: pages => do
-    let tbl ← parseObjs keys
+    let tbl ← parseTbl keys
     let skip ← parseHexList skip
     let p ← Bytes.ofHex p
     let d ← Bytes.ofHex d
     let m ← Bytes.ofHex m
     let n ← n.toNat?
     let rs ← pages.mapM parseResult
-    pure (if runOkB (getObjOf tbl) (specKeys tbl skip) p d m n rs then "ok" else "bad")
+    pure (if runOkB (getObjOf tbl.objs) (specKeys tbl.objs skip) p d m n rs then "ok" else "bad")
   | "judge" :: keys :: skip :: p :: d :: m :: n :: pages => do
-    let tbl ← parseObjs keys
+    let tbl ← parseTbl keys
     let skip ← parseHexList skip
     let p ← Bytes.ofHex p
     let d ← Bytes.ofHex d
